@@ -11,7 +11,7 @@
 extern "C" {
 #endif
 
-#define VS_MAXT 24
+#define VS_MAXT 96 /* virtual threads per scenario (16 workers + I/O thread + helper threads a refactoring may spawn per chunk) */
 #define VS_MAXPTS 60000
 #define VS_MAXRACES 16
 
@@ -41,6 +41,8 @@ extern int vs_prefix[VS_MAXPTS];
 extern int vs_nprefix;
 extern int vs_sleepmode;     /* 1: sleep sets (unbounded search) */
 extern int vs_spurious;      /* remaining spurious wake-ups that may be injected */
+extern int vs_unlock_points; /* 1 (default): scheduling point after every mutex release */
+extern int vs_policy;        /* 0: canonical default (stay on the running thread), 1: round robin at every choice point beyond the prefix */
 extern int vs_nthreads_seen; /* threads created in this scenario incl. main */
 extern vs_race_t vs_races[VS_MAXRACES];
 extern int vs_nraces;
@@ -62,9 +64,14 @@ extern void (*vs_on_fatal)(int code);
 void vs_begin(void);
 void vs_end(void);
 int vs_active(void);
+int vs_thread_done(int t);             /* virtual thread t has returned from its start routine */
 int vs_self(void);                      /* virtual thread id of the caller (0 = scenario's main thread) */
 void vs_point(int kind, long group);    /* scheduling point at an unsynchronised access */
 void vs_access(int loc, int is_write, int code); /* happens-before race monitor */
+/* futex-word model (libstdc++ future/promise/async, see vsched_cxx.cpp): return -1 when the scheduler is not active */
+int vs_futex_wait(unsigned *addr, unsigned val);
+int vs_futex_wake(unsigned *addr);
+extern int vs_futex_ops; /* modelled futex-word / pthread_once operations seen in the current scenario */
 /* description of what every unfinished thread is blocked on (for deadlock reports) */
 int vs_describe(char *buf, int n);
 /* hand-over exit codes used by children */
